@@ -7,7 +7,7 @@
 """
 import json, os, shutil, subprocess, sys, time
 
-V = "/verif"
+V = os.environ.get("VERIF_HOME", "/verif")          # a snapshot copy can be used so that edits in /verif do not disturb a long matrix run
 
 
 def sh(cmd, cwd=None, env=None, timeout=3600):
